@@ -268,6 +268,7 @@ def run(rep: Report) -> None:
     rep.rule("R01.2", "every floor division that flows into a constructor in Dimension.root / Prefix.root / Unit.root "
              "is dominated by a raising exactness test over the same elements", floor=3)
     rep.rule("R01.3", "no module other than measured/__init__.py constructs a Unit with an explicit dimension")
+    rep.rule("R01.9", "only the core module calls the interning constructor Unit(prefix, factors, dimension)", floor=8)
     rep.rule("R01.8", "re-constructing an interned object leaves its value fields alone: __init__ assigns them only for a fresh instance", floor=3)
     rep.rule("R01.7", "the dimension a serialised unit is rebuilt with is decoded from the encoded exponents on every path "
              "(Unit.__from_json__ passes it to the interning constructor unchecked)", floor=2)
@@ -323,6 +324,24 @@ def run(rep: Report) -> None:
     # R01.7: the decoded dimension that Unit.__from_json__ passes on is the encoded one
     from .c15 import structural_decoding
     structural_decoding(rep, prog, "R01.7")
+    # R01.9: the interning constructor trusts its dimension argument, so only the core module (whose every site R01.1 decides) may call it
+    n9 = 0
+    for q9, f9 in sorted(prog.functions.items()):
+        for cs in resolver.callsites(q9):
+            if cs.external == "ctor:Unit" and (len(cs.args) + len(cs.kwargs)) >= 3:
+                n9 += 1
+                rep.check("R01.9", f"{q9}:Unit(...)", f9.module == "", f"{q9} (module {f9.module or 'measured'}) calls Unit(prefix, factors, dimension) directly: "
+                          "outside the core module nothing derives the dimension from the factors, and the first construction of a key fixes its "
+                          "dimension for the process", f9.where(cs.node))
+    for short, mi in prog.modules.items():
+        if short in ("", "_parser"):
+            continue
+        for node in ast.walk(mi.tree):
+            if isinstance(node, ast.Call) and isinstance(node.func, ast.Name) and node.func.id == "Unit" and len(node.args) + len(node.keywords) >= 3 \
+                    and not any(node in ast.walk(f_.node) for f_ in prog.functions.values() if f_.module == short):
+                n9 += 1
+                rep.fail("R01.9", f"{short}:<module>:Unit(...)", f"module {short} calls Unit(prefix, factors, dimension) at import time: the dimension it passes is "
+                         "not derived from the factors by the core operators", f"src/measured/{short}.py:{node.lineno}")
     # R01.8: constructing an already interned unit again must not touch it
     from ..cfg import CFG
     from .c19 import _initialized_decider
